@@ -638,15 +638,15 @@ mutual
     | .group ou oc ot ocs :: rest, s, s', path, inDel, hI, h => by
       unfold mergeSubgroups at h
       dsimp only at h
-      have jp : ∀ (s1 : St), Inv s1.root → mergeSubgroups now tombs s1 path inDel rest = .ok s' → Inv s'.root :=
-        fun s1 hI1 hk => mergeSubgroups_inv now tombs rest s1 s' path inDel hI1 hk
+      have jp : ∀ (s1 : St) (p1 : List Nat), Inv s1.root → mergeSubgroups now tombs s1 p1 inDel rest = .ok s' → Inv s'.root :=
+        fun s1 p1 hI1 hk => mergeSubgroups_inv now tombs rest s1 s' p1 inDel hI1 hk
       have viaGroup : ∀ (s0 : St) (b : Bool), Inv s0.root →
           (do
             let s ← mergeGroup now tombs s0 (path ++ [ou]) (.group ou oc ot ocs) b
-            mergeSubgroups now tombs s path inDel rest) = .ok s' → Inv s'.root := by
+            mergeSubgroups now tombs s (refreshPath s.root path) inDel rest) = .ok s' → Inv s'.root := by
         intro s0 b hI0 hk
         obtain ⟨s1, hs1, hk⟩ := except_bind_ok hk
-        exact jp s1 (mergeGroup_inv now tombs (.group ou oc ot ocs) s0 s1 _ b hI0 hs1) hk
+        exact jp s1 _ (mergeGroup_inv now tombs (.group ou oc ot ocs) s0 s1 _ b hI0 hs1) hk
       split at h
       · exact viaGroup s true hI h
       · split at h
@@ -879,21 +879,21 @@ mutual
       dsimp only
       have viaGroup : ∀ (s0 : St) (b : Bool), NoFuelErr (do
             let s ← mergeGroup now tombs s0 (path ++ [ou]) (.group ou oc ot ocs) b
-            mergeSubgroups now tombs s path inDel rest) :=
+            mergeSubgroups now tombs s (refreshPath s.root path) inDel rest) :=
         fun s0 b => NoFuelErr.bind (mergeGroup_noFuel now tombs (.group ou oc ot ocs) s0 _ b)
-          (fun a _ => mergeSubgroups_noFuel now tombs rest a path inDel)
+          (fun a _ => mergeSubgroups_noFuel now tombs rest a _ inDel)
       split
       · exact viaGroup s true
       · split
         · split
           · split
-            · exact NoFuelErr.bind (NoFuelErr.err _ (by decide)) (fun a _ => mergeSubgroups_noFuel now tombs rest a path inDel)
+            · exact NoFuelErr.bind (NoFuelErr.err _ (by decide)) (fun a _ => mergeSubgroups_noFuel now tombs rest a _ inDel)
             · split
               · exact NoFuelErr.bind (relocate_noFuel _ _ _ _ _) (fun a _ => viaGroup _ inDel)
               · exact viaGroup s inDel
           · exact viaGroup s inDel
         · split
-          · exact NoFuelErr.bind (NoFuelErr.err _ (by decide)) (fun a _ => mergeSubgroups_noFuel now tombs rest a path inDel)
+          · exact NoFuelErr.bind (NoFuelErr.err _ (by decide)) (fun a _ => mergeSubgroups_noFuel now tombs rest a _ inDel)
           · exact viaGroup _ inDel
 end
 
@@ -1289,10 +1289,10 @@ mutual
       have viaGroup : ∀ (s0 : St) (b : Bool), Inv s0.root → AllQ Q s0.root →
           (do
             let s ← mergeGroup now tombs s0 (path ++ [ou]) (.group ou oc ot ocs) b
-            mergeSubgroups now tombs s path inDel rest) = .ok s' → AllQ Q s'.root := by
+            mergeSubgroups now tombs s (refreshPath s.root path) inDel rest) = .ok s' → AllQ Q s'.root := by
         intro s0 b hI0 hQ0 hk
         obtain ⟨s1, hs1, hk⟩ := except_bind_ok hk
-        exact mergeSubgroups_allQ Q P now tombs hT rest s1 s' path inDel hrest
+        exact mergeSubgroups_allQ Q P now tombs hT rest s1 s' _ inDel hrest
           (mergeGroup_inv now tombs (.group ou oc ot ocs) s0 s1 _ b hI0 hs1)
           (mergeGroup_allQ Q P now tombs hT (.group ou oc ot ocs) s0 s1 _ b
             (fun u hu => hog u (by simp only [uuidsN, List.mem_cons]; exact Or.inr (by simpa [Node.children] using hu))) hI0 hQ0 hs1) hk
@@ -1972,10 +1972,10 @@ mutual
       have viaGroup : ∀ (s0 : St) (b : Bool), timedN s0.root →
           (do
             let s ← mergeGroup now tombs s0 (path ++ [ou]) (.group ou oc ot ocs) b
-            mergeSubgroups now tombs s path inDel rest) = .ok s' → timedN s'.root := by
+            mergeSubgroups now tombs s (refreshPath s.root path) inDel rest) = .ok s' → timedN s'.root := by
         intro s0 b hT0 hk
         obtain ⟨s1, hs1, hk⟩ := except_bind_ok hk
-        exact mergeSubgroups_timed now tombs rest s1 s' path inDel hS.2
+        exact mergeSubgroups_timed now tombs rest s1 s' _ inDel hS.2
           (mergeGroup_timed now tombs (.group ou oc ot ocs) s0 s1 _ b hog hT0 hs1) hk
       split at h
       · exact viaGroup s true hT h
@@ -2180,10 +2180,10 @@ mutual
       have viaGroup : ∀ (s0 : St) (b : Bool), Inv s0.root →
           (do
             let s ← mergeGroup now tombs s0 (path ++ [ou]) (.group ou oc ot ocs) b
-            mergeSubgroups now tombs s path inDel rest) = .ok s' → s'.root.uuid = s0.root.uuid := by
+            mergeSubgroups now tombs s (refreshPath s.root path) inDel rest) = .ok s' → s'.root.uuid = s0.root.uuid := by
         intro s0 b hI0 hk
         obtain ⟨s1, hs1, hk⟩ := except_bind_ok hk
-        rw [mergeSubgroups_uuid now tombs rest s1 s' path inDel (mergeGroup_inv now tombs (.group ou oc ot ocs) s0 s1 _ b hI0 hs1) hk,
+        rw [mergeSubgroups_uuid now tombs rest s1 s' _ inDel (mergeGroup_inv now tombs (.group ou oc ot ocs) s0 s1 _ b hI0 hs1) hk,
           mergeGroup_uuid now tombs (.group ou oc ot ocs) s0 s1 _ b hI0 hs1]
       split at h
       · exact viaGroup s true hI h
@@ -2696,11 +2696,11 @@ mutual
       unfold mergeSubgroups at h
       dsimp only at h
       -- common tail: the rest of the children list
-      have tail : ∀ (s1 : St), Inv s1.root → mergeSubgroups now tombs s1 path inDel rest = .ok s' →
+      have tail : ∀ (s1 : St) (p1 : List Nat), Inv s1.root → mergeSubgroups now tombs s1 p1 inDel rest = .ok s' →
           UuidsLe s1.root s'.root ∧ (inDel = false → ∀ u ∈ liveL tombs rest,
             u ∈ uuidsL s'.root.children ∨ (∃ e, Node.entry e ∈ (Node.group ou oc ot ocs :: rest) ∧ e.d.uuid = u ∧ tombsContain tombs u = false)) := by
-        intro s1 hI1 hk
-        obtain ⟨hle, hc⟩ := mergeSubgroups_le now tombs rest s1 s' path inDel hI1 hk
+        intro s1 p1 hI1 hk
+        obtain ⟨hle, hc⟩ := mergeSubgroups_le now tombs rest s1 s' p1 inDel hI1 hk
         refine ⟨hle, fun hd u hu => ?_⟩
         rcases hc hd u hu with h1 | ⟨e', he', hu', ht'⟩
         · exact Or.inl h1
@@ -2710,14 +2710,14 @@ mutual
           (b = false → ou ∈ uuidsL s0.root.children) → (inDel = false → tombsContain tombs ou = false → b = false) →
           (do
             let s ← mergeGroup now tombs s0 (path ++ [ou]) (.group ou oc ot ocs) b
-            mergeSubgroups now tombs s path inDel rest) = .ok s' →
+            mergeSubgroups now tombs s (refreshPath s.root path) inDel rest) = .ok s' →
           UuidsLe s.root s'.root ∧ (inDel = false → ∀ u ∈ liveL tombs (Node.group ou oc ot ocs :: rest),
             u ∈ uuidsL s'.root.children ∨ (∃ e, Node.entry e ∈ (Node.group ou oc ot ocs :: rest) ∧ e.d.uuid = u ∧ tombsContain tombs u = false)) := by
         intro s0 b hI0 hle0 hou hb hk
         obtain ⟨s1, hs1, hk⟩ := except_bind_ok hk
         have hI1 := mergeGroup_inv now tombs (.group ou oc ot ocs) s0 s1 _ b hI0 hs1
         obtain ⟨hleG, hcG⟩ := mergeGroup_le now tombs (.group ou oc ot ocs) s0 s1 _ b hI0 hs1
-        obtain ⟨hleT, hcT⟩ := tail s1 hI1 hk
+        obtain ⟨hleT, hcT⟩ := tail s1 _ hI1 hk
         refine ⟨(hle0.trans hleG).trans hleT, fun hd u hu => ?_⟩
         simp only [liveL, List.mem_append] at hu
         rcases hu with hu | hu
